@@ -14,7 +14,7 @@ hprop.install(globals(), hprop.HistoryProperty(
           "every charge price with energy x the station's tariff for that plug. non-trivial = charge sessions at >=2 distinct "
           "non-zero (station, plug, tariff) AND a session cut short by an instruction; distinct = sha1(world, op log)"),
     assumptions=hprop.COMMON_ASSUMPTIONS + ["tariff tables are complete (name every station and plug), so the C11 price-table defects cannot mask this property"],
-    quick=(16, 60, 40), thorough=(16, 1500, 70),
+    quick=(16, 60, 40), thorough=(16, 600, 60),
     instr_bias={"throttle": True, "kinds": [2, 2, 2, 3, 3, 3, 4, 4, 4, 0, 0, 1, 5, 6, 7], "tclasses": [0, 1, 1, 2, 3, 5, 5]},
 ))
 FLOORS = {"quick": {"flag:two_nonzero_tariffs": 20}, "thorough": {"flag:two_nonzero_tariffs": 200}}
